@@ -505,6 +505,9 @@ func (e *Engine) verify(key string, c *Contract) *Unit {
 			}
 		}
 		frontier0 := base.frontier
+		if os.Getenv("GOCV_DEBUG_FRAME") != "" {
+			fmt.Fprintf(os.Stderr, "frame %s: allowed=%v\n", u.name, sortedKeys(allowed))
+		}
 		if !allowAll && c.Flags["noframe"] == "" {
 			for _, hn := range sortedKeys(r.st.heap) {
 				cur := r.st.heap[hn]
@@ -568,7 +571,51 @@ func (e *Engine) verify(key string, c *Contract) *Unit {
 	if len(fr.returns) == 0 && u.rejected == "" {
 		u.note("assumptions", "no return path reached (function never returns normally under its precondition)")
 	}
-	// user covers: at least one return must satisfy each cover clause -> combined later by name
+	// spawn rule: the callee of the k-th go statement is verified as its own unit, from an arbitrary state
+	// (only lock invariants are known when it finally runs), against the parent's `spawn k ensures` clauses.
+	if len(c.Spawns) > 0 {
+		k := 0
+		ast.Inspect(fd.Body, func(x ast.Node) bool {
+			g, ok := x.(*ast.GoStmt)
+			if !ok {
+				return true
+			}
+			k++
+			cls := c.Spawns[k]
+			if len(cls) == 0 {
+				return true
+			}
+			old := u.pkg
+			callee := u.calleeFunc(g.Call)
+			u.pkg = old
+			if callee == nil {
+				u.reject("spawn %d: callee is not a named function or method", k)
+				return true
+			}
+			ck := funcKey(callee)
+			syn := &Contract{Key: ck, PkgPath: c.PkgPath, Where: cls[0].Where, Ensures: cls, Loops: map[int]*LoopSpec{}, Closures: map[int]*Contract{}, Flags: map[string]string{"noframe": "true"}}
+			for fk, fv := range c.Flags {
+				if fk == "frozen_clock" {
+					syn.Flags[fk] = fv
+				}
+			}
+			if own := e.cs.Funcs[ck]; own != nil {
+				syn.Loops = own.Loops
+			}
+			su := e.verify(ck, syn)
+			if su.rejected != "" {
+				u.reject("spawn %d (%s): %s", k, shortFuncName(ck), su.rejected)
+				return true
+			}
+			for _, o := range su.obls {
+				o.Name = fmt.Sprintf("%s#spawn:%d.%s", u.name, k, strings.SplitN(o.Name, "#", 2)[1])
+				o.Func = u.name
+			}
+			u.spawnUnits = append(u.spawnUnits, su)
+			u.note("assumptions", fmt.Sprintf("spawn rule: go %s verified from an arbitrary state (lock invariants only)", shortFuncName(ck)))
+			return true
+		})
+	}
 	return u
 }
 
